@@ -76,16 +76,64 @@ def probe(ctx):
                            "explain": "C06_accepted is relative to ExecLimits.kernel_accepts; the model must never accept what the kernel rejects"})
 
 
+def probe_script(ctx, td):
+    """the kernel model's rule for "#!" scripts (the file name a second time and the interpreter line): the largest argument count the
+    kernel accepts for a script reached through a long path, against the model's"""
+    deep = os.path.join(td, "sp")
+    for _ in range(13):
+        deep = os.path.join(deep, "s" * 250)
+    os.makedirs(deep)
+    script = os.path.join(deep, "scr")
+    with open(script, "w") as f:
+        f.write("#!/bin/sh\nexit 0\n")
+    os.chmod(script, 0o755)
+    rl, L = 512 * 1024, 3
+    env = {}
+
+    def real_ok(n):
+        try:
+            subprocess.run(["s"] + ["a" * L] * n, executable=script, env=env, preexec_fn=pre(rl), check=False)
+            return True
+        except OSError:
+            return False
+
+    def model_ok(n):
+        # argv = "s" + n arguments; fname = the script's path; shebang = that path once more and "/bin/sh" (each with its NUL)
+        sb = len(script) + 1 + len("/bin/sh") + 1
+        r = fw.run_lines(fw.FUVM, ["limits kernel %d %d %d ~ %d %d" % (rl, n, L, len(script), sb + 1 + 1 + 8)], shards=1)[0]
+        if r not in ("0", "1"):
+            raise RuntimeError("model runner failed on the script probe: %r" % r)
+        return r == "1"
+    res = []
+    for ok in (real_ok, model_ok):
+        lo, hi = 0, 200000
+        while lo < hi:
+            mid = (lo + hi + 1) // 2
+            if ok(mid):
+                lo = mid
+            else:
+                hi = mid - 1
+        res.append(lo)
+    real, model = res
+    ctx.count(("probe-script", rl, L, len(script)), True, "probe")
+    ctx.sample({"script_path_length": len(script), "stack_limit": rl, "kernel_max_args": real, "model_max_args": model})
+    if model > real or real - model > 8:
+        ctx.violation("kernel model out of line for a #! script with a %d-byte path: kernel accepts %d arguments, model %d" % (len(script), real, model),
+                      {"property": "C06", "kind": "kernel-model-script", "path_length": len(script), "kernel": real, "model": model,
+                       "explain": "C06_accepted is relative to ExecLimits.kernel_accepts (shebang term); the model must never accept what the kernel rejects"})
+
+
 def xargs_runs(ctx):
     rng = ctx.rng
     os.makedirs(os.path.join(fw.BUILD, "tmp"), exist_ok=True)
     td = tempfile.mkdtemp(prefix="c06-", dir=os.path.join(fw.BUILD, "tmp"))
     try:
+        probe_script(ctx, td)
         cases = [(8 << 20, 400000, [1], 0, []), (256 * 1024, 30000, [1, 2], 0, []), (1 << 20, 5000, [99, 100, 300], 50, [])]
         # an environment that nearly fills the kernel's budget: the room left for arguments is a few hundred bytes to a few KiB
-        cases.append((512 * 1024, 300, [30], rng.choice([3340, 3380, 3420, 3440]), []))
+        cases.append((512 * 1024, 300, [30], rng.choice([3219, 3259, 3299, 3319]), []))
         if ctx.thorough:
-            cases += [(64 << 20, 600000, [1], 0, []), (512 * 1024, 500, [10, 40], 3430, []), (512 * 1024, 50, [200], 3360, ["-n", "3"]), (8 << 20, 100000, [1, 9, 40], 1000, []), (256 * 1024, 20000, [1], 0, ["-n", "5000"]),
+            cases += [(64 << 20, 600000, [1], 0, []), (512 * 1024, 500, [10, 40], 3309, []), (512 * 1024, 50, [200], 3239, ["-n", "3"]), (8 << 20, 100000, [1, 9, 40], 1000, []), (256 * 1024, 20000, [1], 0, ["-n", "5000"]),
                       (8 << 20, 3000, [4000, 100000], 0, []), (1 << 20, 50000, [3], 10, ["-s", "100000"])]
         else:
             cases.append((rng.choice([256 * 1024, 1 << 20]), rng.choice([1, 2, 1000, 20000]), [1, 50], rng.choice([0, 100]), rng.choice([[], ["-n", "700"]])))
@@ -139,9 +187,18 @@ def xargs_runs(ctx):
         cmd = os.path.join(deep, "t")
         shutil_copy = __import__("shutil").copy
         shutil_copy("/bin/true", cmd)
-        for count in (400000, 3):
-            p = subprocess.run([fw.XARGS, cmd], input=b"a\n" * count, env=xc.ENV, stdout=subprocess.DEVNULL, stderr=subprocess.PIPE, timeout=900)
-            ctx.count(("long-command-path", len(cmd), count), True, "long-command-path")
+        scr = os.path.join(deep, "scr")
+        with open(scr, "w") as f:
+            f.write("#!/bin/sh\nexit 0\n")
+        os.chmod(scr, 0o755)
+        for count, how in ((400000, "path"), (3, "path"), (400000, "script-through-PATH")):
+            if how == "path":
+                p = subprocess.run([fw.XARGS, cmd], input=b"a\n" * count, env=xc.ENV, stdout=subprocess.DEVNULL, stderr=subprocess.PIPE, timeout=900)
+            else:
+                # a "#!" script found through PATH: argv[0] is short, the kernel pushes the long file name twice and the interpreter
+                p = subprocess.run([fw.XARGS, "scr"], input=b"a\n" * count, env=dict(xc.ENV, PATH=deep + ":" + xc.ENV.get("PATH", "/usr/bin:/bin")),
+                                   stdout=subprocess.DEVNULL, stderr=subprocess.PIPE, timeout=900)
+            ctx.count(("long-command-path", len(cmd), count, how), True, "long-command-path")
             if p.returncode != 0:
                 ctx.violation("xargs CMD with a %d-byte command path and %d one-byte arguments: exit %d (%s)" % (len(cmd), count, p.returncode, p.stderr.decode("utf-8", "replace")[:120]),
                               {"property": "C06", "kind": "long-command-path", "path_length": len(cmd), "arguments": count, "exit": p.returncode,
@@ -189,9 +246,9 @@ def xargs_runs(ctx):
 
 
 def reference_sizes(args, n, s, env, amax, cmd):
-    """greedy batching under within_limits (system clause: 8 bytes per pointer, ARG_MAX - 2048 - 4096 - env - 16)"""
+    """greedy batching under within_limits (system clause: 8 bytes per pointer, ARG_MAX - 2048 - (2 * 4096 + 256) - env - 16)"""
     env_size = sum(len(k.encode()) + 1 + len(v.encode()) + 1 + 8 for k, v in env.items())
-    sysb = max(0, amax - (2048 + 4096 + env_size + 16))
+    sysb = max(0, amax - (2048 + 8448 + env_size + 16))
     base8 = sum(len(c) + 1 + 8 for c in cmd)
     base0 = sum(len(c) + 1 for c in cmd)
     sizes, cur, c8, c0 = [], 0, base8, base0
